@@ -198,6 +198,7 @@ class Trace:
         self.series = None
         self.cfg = None
         self.events = []
+        self.sequence = []        # ordered (event, phase name, round)
 
 
 def _round(trace, r):
@@ -236,6 +237,7 @@ def run(cfg, sync_pool=True, record_admm=True, admm_wrapper=None, series=None, e
 
     def listener(ev, p):
         trace.events.append(ev)
+        trace.sequence.append((ev, p.get("name"), p.get("round")))
         if ev == "run_begin":
             trace.begin = {"stacked": np.array(p["stacked_training_data"], copy=True),
                            "initial": snap_state(p["model"]),
